@@ -1081,10 +1081,10 @@ def _probe_project_json(task):
 
 
 def _probe_host_path_in_tree(task):
-    """NOT judged (see assumptions): the host's OWN sys.path has an entry that resolves to the
-    analysed tree ('' or '.' while the working directory is the tree) and the analysis runs
-    in-process.  jedi drops the first '' from the path it trusts; recorded: which shapes still
-    let it import the tree's auto-import module."""
+    """Recorded for all shapes; the '' shapes are ALSO judged by the explorer, the relative
+    entry shape is not (see assumptions): the host's OWN sys.path has an entry that resolves
+    to the analysed tree ('' or '.' while the working directory is the tree) and the analysis
+    runs in-process.  Which shapes let jedi import the tree's auto-import module?"""
     world = World('m', _so_template, tag='-hp').enter('project')
     jedi = world.jedi
     name = world.autos[0] if world.autos else 'gi'
@@ -1219,6 +1219,18 @@ def _levels(tier, autos, have_so):
                        (base_strings[:2] + strings['m'][:8]) if variant == 'm' else strings['p'])
         levels.append(('cwd = project root, helpers spawned inside the tree (variant %s)'
                        % variant, ts))
+        if variant == 'm':
+            # the REPL situation: the host's sys.path says '' and the working directory IS the
+            # analysed tree.  jedi must not take '' for a trusted place (judged); a host that
+            # lists '.' or another relative entry trusts that directory itself (probe only).
+            levels.append((
+                "host sys.path containing '' x environment kind x options x symbols x forms, "
+                'cwd = the analysed tree',
+                [{'kind': 'form', 'variant': 'm', 'cwd': 'project', 'env': env, 'opt': opt,
+                  'sym': sym, 'form': form, 'deep': deep, 'shape': shape}
+                 for shape in HOST_SHAPES if shape.startswith('empty-')
+                 for env in ENV_KINDS for opt in PROJECT_OPTIONS
+                 for sym in shape_syms for form in shape_forms]))
     return levels, mods
 
 
@@ -1468,10 +1480,12 @@ def run(ctx):
         '(get_cached_default_environment): that second helper is observed in the same way',
         'per call the module table of a process is re-read only when len(sys.modules) changed; '
         'a full observation closes every battery',
-        'host sys.path shapes: the family runs with a neutral working directory, so that \'\' '
-        'and relative entries of the HOST never denote the analysed tree; a host that itself '
-        'lists the tree (cwd) on its own sys.path has put the tree into the environment the '
-        'property trusts (not judged, recorded under not_judged:host_sys.path_entry...)',
+        'host sys.path shapes: all five shapes are judged with a neutral working directory; '
+        'with cwd = the analysed tree the shapes whose only tree-resolving entry is \'\' (first, '
+        'middle, twice) are judged as well (jedi itself declares \'\' untrusted by dropping it); '
+        'the relative-entry shape (\'.\', \'c12rel/lib\') with cwd = tree is recorded, not judged '
+        '(not_judged:host_sys.path_entry...): a host that lists \'.\' on its own sys.path trusts '
+        'that directory itself, which puts it inside the environment the property trusts',
         '.pth files are never read by jedi; the symbol is present in every tree and guarded by '
         'the sentinel and by the cwd=project levels (helpers started inside the tree)',
         '.jedi/project.json inside the analysed tree is jedi configuration (it can set '
